@@ -341,6 +341,35 @@ Fixpoint start_graph (f : nat) (T : tcfg) (beh : behaviour) (g : nat) (t : Z) (w
 (* ---- node.cpp evaluate_impl (plain nodes, with captures_errors for kind 3) ---- *)
 Definition iv_line (v : inview) : line := [b2z (v_valid v); b2z (v_mod v); v_val v; v_lmt v].
 
+(* the user part of an evaluation: header line, then the operations of user code *)
+Definition run_user (T : tcfg) (beh : behaviour) (g i : nat) (w : world) : world :=
+  let c := ncfg_at T g i in
+  let n := node_at g i w in
+  let now := now_of g w in
+  let k := n_runs n in
+  let ivs := read_inputs c now w in
+  let hdr := [12; Z.of_nat g; Z.of_nat i; now; k] ++
+             (if c_sched c then [b2z (is_scheduled_now now (n_sch n)); next_scheduled_time (n_sch n)] else [0; 0]) ++
+             concat (map iv_line ivs) in
+  do_ops T g i true 0 (beh g i k now ivs (n_sch n)) (emit hdr (upd_node g i inc_runs w)).
+
+(* captures_errors: the exception is turned into one tick of the error output; the run continues *)
+Definition capture (T : tcfg) (g i : nat) (now : Z) (w : world) : world :=
+  if (c_kind (ncfg_at T g i) =? 3) && negb (ok w)
+  then write_err T g i (w_err w) now (set_err 0 w)
+  else w.
+
+(* the scheduler section after user code: consume the fired events and re-arm *)
+Definition rearm (T : tcfg) (g i : nat) (scheduled_now : bool) (now : Z) (w : world) : world :=
+  if c_sched (ncfg_at T g i) then
+    let s := n_sch (node_at g i w) in
+    if scheduled_now then
+      let '(s', push) := advance now s in
+      opt_schedule T g i push (upd_node g i (set_sch s') w)
+    else if is_scheduled s then sched_at (length T) T g i (next_scheduled_time s) w
+    else w
+  else w.
+
 Definition eval_plain (T : tcfg) (beh : behaviour) (g i : nat) (w : world) : world :=
   let c := ncfg_at T g i in
   let n := node_at g i w in
@@ -348,28 +377,8 @@ Definition eval_plain (T : tcfg) (beh : behaviour) (g i : nat) (w : world) : wor
   let now := now_of g w in
   let scheduled_now := c_sched c && is_scheduled_now now (n_sch n) in
   let do_eval := match c_ins c with [] => true | _ => ready c now w end in
-  let w1 :=
-    if do_eval then
-      let k := n_runs n in
-      let ivs := read_inputs c now w in
-      let hdr := [12; Z.of_nat g; Z.of_nat i; now; k] ++
-                 (if c_sched c then [b2z (is_scheduled_now now (n_sch n)); next_scheduled_time (n_sch n)] else [0; 0]) ++
-                 concat (map iv_line ivs) in
-      let w' := emit hdr (upd_node g i inc_runs w) in
-      let w'' := do_ops T g i true 0 (beh g i k now ivs (n_sch n)) w' in
-      if (c_kind c =? 3) && negb (ok w'')
-      then write_err T g i (w_err w'') now (set_err 0 w'')       (* captured: one error tick, run continues *)
-      else w''
-    else w in
-  if negb (ok w1) then w1 else
-  if c_sched c then
-    let s := n_sch (node_at g i w1) in
-    if scheduled_now then
-      let '(s', push) := advance now s in
-      opt_schedule T g i push (upd_node g i (set_sch s') w1)
-    else if is_scheduled s then sched_at (length T) T g i (next_scheduled_time s) w1
-    else w1
-  else w1.
+  let w1 := if do_eval then capture T g i now (run_user T beh g i w) else w in
+  if negb (ok w1) then w1 else rearm T g i scheduled_now now w1.
 
 (* ---- graph.cpp evaluate_impl ---- *)
 Section EVAL.
@@ -377,22 +386,27 @@ Section EVAL.
   Variable beh : behaviour.
   Variable eval_child : nat -> Z -> world -> world.      (* child graph evaluate, one level down *)
 
+  (* bind_output, re-run each cycle: at start the link could only be pointed at the child terminal's own
+     (still unbound) forwarding endpoint when that terminal is itself a nested / try_except node; the first
+     evaluation re-points it at the final output, which stamps the link modified (bind_forwarding_target) *)
+  Definition relink (g i : nat) (w : world) : world :=
+    let c := ncfg_at T g i in
+    let tc := ncfg_at T (c_child c) (Z.to_nat (c_outn c)) in
+    if (0 <=? c_outn c) && is_nested tc && (0 <=? c_outn tc) && negb (n_rebound (node_at g i w))
+    then notify_link T (g, i) (now_of g w) (upd_node g i (set_link (now_of g w)) w) else w.
+
+  (* try_except: the child's exception becomes one tick of the `exception` field; then the pull *)
+  Definition catch (g i : nat) (now : Z) (w : world) : world :=
+    let w2 := if negb (ok w) then write_err T g i (w_err w) now (set_err 0 w) else w in
+    pull T g i (c_child (ncfg_at T g i)) w2.
+
   (* single_nested_graph_evaluate / try_except_evaluate_impl *)
   Definition eval_nested (g i : nat) (w : world) : world :=
     let c := ncfg_at T g i in
     if negb (n_started (node_at g i w)) then w else
     let now := now_of g w in
-    (* bind_output, re-run each cycle: at start the link could only be pointed at the child terminal's own
-       (still unbound) forwarding endpoint when that terminal is itself a nested / try_except node; the first
-       evaluation re-points it at the final output, which stamps the link modified (bind_forwarding_target) *)
-    let tc := ncfg_at T (c_child c) (Z.to_nat (c_outn c)) in
-    let wr := if (0 <=? c_outn c) && is_nested tc && (0 <=? c_outn tc) && negb (n_rebound (node_at g i w))
-              then notify_link T (g, i) now (upd_node g i (set_link now) w) else w in
-    let w1 := eval_child (c_child c) now wr in
-    if c_kind c =? 1 then w1
-    else
-      let w2 := if negb (ok w1) then write_err T g i (w_err w1) now (set_err 0 w1) else w1 in
-      pull T g i (c_child c) w2.
+    let w1 := eval_child (c_child c) now (relink g i w) in
+    if c_kind c =? 1 then w1 else catch g i now w1.
 
   Definition eval_node (g i : nat) (w : world) : world :=
     if is_nested (ncfg_at T g i) then eval_nested g i w else eval_plain T beh g i w.
